@@ -503,6 +503,63 @@ fn small_scope(ctx: &mut Ctx, n: usize, menu: &[(usize, u8)]) {
     t_all.into_part(ctx, part);
 }
 
+/// The range half of I1 over many more keys than the dense reference can afford: every leaf of every generated
+/// tree lies in [sigma_min, sigma_max], the precondition under which each SamplerZ call has the width the
+/// nearest-plane argument needs (outside it the sampler's acceptance arithmetic wraps and the output is no
+/// longer Gaussian along that Gram-Schmidt direction).
+fn leaf_window<V: Variant>(ctx: &mut Ctx, tier: Tier) {
+    let n = V::N;
+    let off = ctx.seed.wrapping_mul(4096);
+    let count: u64 = match (n, tier.thorough()) {
+        (512, false) => 24,
+        (512, true) => 256,
+        (_, false) => 8,
+        (_, true) => 64,
+    };
+    let mut seeds: Vec<u64> = (0..count).map(|i| off + 200 + i).collect();
+    seeds.extend(crate::util::gamma_near_miss_seeds(n).into_iter().take(if tier.thorough() { 6 } else { 2 }));
+    seeds.extend(crate::util::boundary_seeds(n).into_iter().take(2));
+    seeds.sort();
+    seeds.dedup();
+    let (smin, smax) = (sigma_min(n), crate::refmodel::SIGMA_MAX);
+    let res: Vec<(u64, Result<(f64, f64), String>)> = seeds
+        .par_iter()
+        .map(|&s| {
+            let r = crate::ctx::catch(|| {
+                let (sk, _) = V::keygen(seed_bytes(s));
+                let leaves = leaves_of(&V::sk_tree(&sk));
+                let lo = leaves.iter().cloned().fold(f64::INFINITY, f64::min);
+                let hi = leaves.iter().cloned().fold(f64::NEG_INFINITY, f64::max);
+                (if leaves.iter().all(|x| x.is_finite()) && leaves.len() == n { lo } else { f64::NAN }, hi)
+            });
+            (s, r)
+        })
+        .collect();
+    let mut part = Part::new(&format!("leaf_range_over_keys_{}", n), &format!("{} keys (seeds LE64(i): a window of {}, seeds with a candidate just above the Gram-Schmidt bound, seeds on the edge of the encodable range): all n leaves of the generated signing tree lie in [sigma_min, sigma_max]", seeds.len(), count));
+    let (mut lo_all, mut hi_all) = (f64::INFINITY, 0.0f64);
+    for (s, r) in res {
+        part.states += 1;
+        part.transitions += 1;
+        part.validated += 1;
+        match r {
+            Ok((lo, hi)) if lo >= smin && hi <= smax => {
+                lo_all = lo_all.min(lo);
+                hi_all = hi_all.max(hi);
+            }
+            Ok((lo, hi)) => ctx.violation(
+                format!("I1-leaf-range:n={},seed={}", n, s),
+                format!("{}::keygen(seed LE64({})): the signing tree's leaves span [{}, {}] but the sampler is only correct for widths in [{}, {}]: along the corresponding Gram-Schmidt directions the signatures are not Gaussian with standard deviation sigma", V::name(), s, lo, hi, smin, smax),
+                json!({"kind":"leaf-range","variant":n,"seed":s}),
+            ),
+            Err(e) => ctx.violation(format!("keygen-panic:n={},seed={}", n, s), format!("{}::keygen(seed LE64({})) panicked: {}", V::name(), s, e), json!({"kind":"leaf-range","variant":n,"seed":s})),
+        }
+    }
+    part.set("leaf_range_observed", json!([lo_all, hi_all]));
+    part.outcome(format!("all leaves within [{:.6}, {:.6}]", smin, smax));
+    part.exhaustive = true;
+    ctx.add_part(part);
+}
+
 pub fn run(tier: Tier) {
     let mut ctx = Ctx::new("C10", tier);
     let off = ctx.seed.wrapping_mul(4096);
@@ -530,6 +587,8 @@ pub fn run(tier: Tier) {
     }
     key_part::<V512>(&mut ctx, tier, &s512);
     key_part::<V1024>(&mut ctx, tier, &s1024);
+    leaf_window::<V512>(&mut ctx, tier);
+    leaf_window::<V1024>(&mut ctx, tier);
     let full: Vec<(usize, u8)> = vec![(0, 0), (0, 1), (1, 0), (1, 1), (2, 0), (2, 1)];
     small_scope(&mut ctx, 2, &full);
     if tier.thorough() {
@@ -551,6 +610,17 @@ pub fn replay(case: &Value) -> Result<Option<String>, String> {
         let n = case.get("variant").and_then(|x| x.as_u64()).ok_or("variant")? as usize;
         let (_, psigma, psigmin, _, _) = fh::parameters(n);
         return Ok(if psigma != sigma(n) || psigmin != sigma_min(n) { Some("parameter table differs from the specification".into()) } else { None });
+    }
+    if kind == "leaf-range" {
+        let n = case.get("variant").and_then(|x| x.as_u64()).ok_or("variant")? as usize;
+        let seed = case.get("seed").and_then(|x| x.as_u64()).ok_or("seed")?;
+        fn span<V: Variant>(seed: u64) -> (f64, f64) {
+            let (sk, _) = V::keygen(seed_bytes(seed));
+            let leaves = leaves_of(&V::sk_tree(&sk));
+            (leaves.iter().cloned().fold(f64::INFINITY, f64::min), leaves.iter().cloned().fold(f64::NEG_INFINITY, f64::max))
+        }
+        let (lo, hi) = if n == 512 { span::<V512>(seed) } else { span::<V1024>(seed) };
+        return Ok(if lo >= sigma_min(n) && hi <= crate::refmodel::SIGMA_MAX { None } else { Some(format!("leaves span [{}, {}]", lo, hi)) });
     }
     if kind == "small" {
         return Err("re-run ./vf check C10 (small scope is enumerated deterministically)".into());
